@@ -5,7 +5,7 @@ from . import l2, l7
 
 def run(run, tier):
     hs = l7.harnesses(tier, run.seed)
-    ch.run_harnesses(run, "C07", hs, timeout=200 if tier == "quick" else 900)
+    ch.run_harnesses(run, "C07", hs, timeout=200 if tier == "quick" else 400)
     from vf import bounds
     bounds.report(run, ["fastavro._write_py", "fastavro._read_py"], 4, "operations per history / records per block")
     l2.describe(run, tier)
